@@ -24,8 +24,13 @@ const (
 	AppX    = "application/x"
 )
 
-// Registry is the key set of the global registry as the model is told.
-var Registry = []string{restful.MIME_JSON, restful.MIME_XML, VndJSON, VndXML, CSV, AppX}
+// AllMedia are the media types routes may declare in Produces; a writer is registered for each of
+// them sooner or later (the package's registry is global and can only grow).
+var AllMedia = []string{restful.MIME_JSON, restful.MIME_XML, VndJSON, VndXML, CSV, AppX}
+
+// Registry is the key set of the global registry as the model is told: the built-in writers first,
+// the custom ones as SetupPhase registers them.
+var Registry = []string{restful.MIME_JSON, restful.MIME_XML}
 
 // codec of each registered key: how the body is checked
 var codec = map[string]string{restful.MIME_JSON: "json", restful.MIME_XML: "xml", VndJSON: "json", VndXML: "xml", CSV: "csv", AppX: "xml"}
@@ -43,17 +48,31 @@ func (csvAccess) Write(resp *restful.Response, status int, v interface{}) error 
 	return err
 }
 
-var once sync.Once
+var phaseMu sync.Mutex
+var phase int
 
-// Setup registers the custom accessors (idempotent).
-func Setup() {
-	once.Do(func() {
+// SetupPhase registers the custom accessors in two steps, so that requests are served both before
+// and after a writer for a produced type exists (phase 0: built-ins only; 1: + vnd.x+json, text/csv;
+// 2: all). Phases only go up: the registry has no way to forget a writer.
+func SetupPhase(k int) {
+	phaseMu.Lock()
+	defer phaseMu.Unlock()
+	if k >= 1 && phase < 1 {
 		restful.RegisterEntityAccessor(VndJSON, restful.NewEntityAccessorJSON(VndJSON))
-		restful.RegisterEntityAccessor(VndXML, restful.NewEntityAccessorXML(VndXML))
 		restful.RegisterEntityAccessor(CSV, csvAccess{})
+		Registry = append(Registry, VndJSON, CSV)
+		phase = 1
+	}
+	if k >= 2 && phase < 2 {
+		restful.RegisterEntityAccessor(VndXML, restful.NewEntityAccessorXML(VndXML))
 		restful.RegisterEntityAccessor(AppX, restful.NewEntityAccessorXML(AppX))
-	})
+		Registry = append(Registry, VndXML, AppX)
+		phase = 2
+	}
 }
+
+// Setup registers every custom accessor (idempotent).
+func Setup() { SetupPhase(2) }
 
 // Entity is the value every handler writes.
 type Entity struct {
@@ -88,7 +107,6 @@ const Dispatches = 3
 
 // Execute sends the request n times through Container.Dispatch on a fresh container.
 func Execute(c *Case, accept string, n int) (out []Obs) {
-	Setup()
 	restful.DefaultResponseContentType(c.Default)
 	defer restful.DefaultResponseContentType("")
 	ran := false
